@@ -15,13 +15,15 @@ type GenCfg struct {
 	Forest        bool // allow several top-level elements / top-level text (scripted route only)
 	Numeric       bool // bias text/attribute values towards numerals
 	NoNS          bool // no namespaces at all
+	Wide          bool // occasionally give one element 33-40 children (size thresholds)
 	Undeclare     bool // allow xmlns="" (an unprefixed, no-namespace element below a default namespace)
 	XMLEverywhere bool // emit the xml binding on every element (as the XML adapter does)
 	Names         []string
 	Values        []string
 }
 
-var DefaultNames = []string{"a", "b", "c", "a", "b", "d", "child", "self", "text", "node", "comment", "ancestor", "a-b", "a.b", "a1", "é"}
+var DefaultNames = []string{"a", "b", "c", "a", "b", "d", "child", "self", "text", "node", "comment", "ancestor", "a-b", "a.b", "a1", "é",
+	"parent-id", "child-x", "self.x", "text1", "node-a", "div-a", "or1", "and-c", "mod.d", "descendant-or-self-x", "processing-instruction-y", "preceding-", "a--b", "following.sibling"}
 var DefaultValues = []string{"", "1", "2", "3", "10", "9", " 12 ", "1e3", "+1", "-0", "-5", "NaN", "Infinity", "0x10", ".5", "5.", "abc", "b", "é€", "x y", "2.5", "007", "-2.50", "\t4\n"}
 var NumericValues = []string{"1", "2", "3", "10", "9", "2.5", "-1", "0", "100", "0.5", " 7 ", "abc", ""}
 
@@ -31,10 +33,11 @@ var prefixes = []string{"p", "q", ""}
 type binding struct{ prefix, uri string }
 
 type gen struct {
-	t     *rapid.T
-	cfg   GenCfg
-	count int
-	max   int
+	t        *rapid.T
+	cfg      GenCfg
+	count    int
+	max      int
+	wideDone bool
 }
 
 func (g *gen) pick(label string, pool []string) string {
@@ -228,6 +231,28 @@ func (g *gen) element(parent *Node, depth int, scope []binding, top bool) *Node 
 		}
 	}
 	// children
+	if g.cfg.Wide && !g.wideDone && depth <= 2 && rapid.IntRange(0, 24).Draw(g.t, "wide") == 0 {
+		// a wide element: thresholds on the number of children / siblings
+		g.wideDone = true
+		nw := rapid.IntRange(33, 40).Draw(g.t, "wideKids")
+		for i := 0; i < nw; i++ {
+			c := &Node{Kind: Elem, Parent: n, Local: g.pick("wideName", []string{"a", "b", "c"})}
+			if g.cfg.XMLEverywhere {
+				c.Decls = append(c.Decls, Event{K: "N", Local: "xml", Value: XMLNS})
+			}
+			if defURI, hasDef := lookup(scope, ""); hasDef && defURI != "" {
+				c.Space = defURI
+			}
+			if i%7 == 3 {
+				c.Children = append(c.Children, &Node{Kind: Text, Value: g.value("wideText"), Parent: c})
+				if g.cfg.XMLSafe && c.Children[0].Value == "" {
+					c.Children = nil
+				}
+			}
+			n.Children = append(n.Children, c)
+		}
+		return n
+	}
 	if depth < g.cfg.MaxDepth && g.count < g.max {
 		nk := rapid.IntRange(0, g.cfg.MaxKids).Draw(g.t, "nKids")
 		lastText := false
